@@ -123,3 +123,30 @@ func SMLoadAndDelete(m *sync.Map, k interface{}, site string) (interface{}, bool
 	Yield(site)
 	return m.LoadAndDelete(k)
 }
+
+// MapKeys replaces reflect.Value.MapKeys in instrumented code: the keys in a
+// reproducible order (sorted by their printed value), which is one of the
+// orders Go may produce.
+func MapKeys(v reflect.Value) []reflect.Value {
+	keys := v.MapKeys()
+	if len(keys) < 2 {
+		return keys
+	}
+	type ks struct {
+		k reflect.Value
+		s string
+	}
+	tmp := make([]ks, len(keys))
+	for i, k := range keys {
+		if k.CanInterface() {
+			tmp[i] = ks{k, fmt.Sprint(k.Interface())}
+		} else {
+			tmp[i] = ks{k, k.String()}
+		}
+	}
+	sort.SliceStable(tmp, func(i, j int) bool { return tmp[i].s < tmp[j].s })
+	for i := range tmp {
+		keys[i] = tmp[i].k
+	}
+	return keys
+}
